@@ -7,7 +7,12 @@ Tie to the source (robotpy_ext/misc/precise_delay.py, run from $VERIF_REPO):
     list (body = the worker itself advances the FPGA clock by the generated
     duration; wait(); free(); leaving the with-block) and takes a snapshot after
     every operation: FPGA time, the alarm the HAL holds, number of
-    cleanNotifier calls on the handle.  When a wait() is going to block (the
+    cleanNotifier calls on the handle.  The with-block is left in every way
+    Python has: running to its end, break, return, and an exception of several
+    classes (Exception subclasses and BaseException-only ones) raised in the
+    block; __exit__ is also called directly, with and without exception
+    information.  For every __exit__ it is recorded whether the exception came
+    out of the with-statement.  When a wait() is going to block (the
     HAL's alarm is in the future) the main thread -- and only then, and only
     after the HAL confirms that the worker is inside HAL_WaitForNotifierAlarm
     -- advances the clock EXACTLY to the alarm.  Nothing depends on wall-clock
@@ -39,6 +44,46 @@ SWEEP_LO, SWEEP_HI = 1000, 2000000
 
 class WouldHang(BaseException):
     """waitForNotifierAlarm on an active notifier that has no alarm: never returns."""
+
+
+class Abort(BaseException):
+    """the main thread gave up on this worker"""
+
+
+# How a with-block is left ("X" operations): ["X"] / ["X", "end"] the block runs to
+# its end, "break", "return", "raise:<class>" an exception raised in the block.
+# name -> (constructor of Delay.Model.exn, the Python class)
+EXC = {
+    "RuntimeError": ("RuntimeErr", RuntimeError),
+    "ValueError": ("ValueErr", ValueError),
+    "StopIteration": ("StopIter", StopIteration),
+    "KeyboardInterrupt": ("KeyboardInt", KeyboardInterrupt),
+    "SystemExit": ("SysExit", SystemExit),
+    "GeneratorExit": ("GenExit", GeneratorExit),
+}
+HOWS = ["end", "break", "return"] + ["raise:%s" % k for k in EXC]
+
+
+def how_of(o):
+    return o[1] if len(o) > 1 else "end"
+
+
+def make_exc(how):
+    """the exception instance that leaves the block, None when it is left without one"""
+    if how.startswith("raise:"):
+        return EXC[how[6:]][1]("raised in the loop body")
+    return None
+
+
+def op_text(o):
+    if o[0] == "B":
+        return "body %d us" % o[1]
+    if o[0] == "W":
+        return "wait()"
+    if o[0] == "F":
+        return "free()"
+    h = how_of(o)
+    return "with-block/__exit__ left by %s" % {"end": "running to its end", "break": "break", "return": "return"}.get(h, h.replace(":", " "))
 
 
 class Sim:
@@ -161,7 +206,10 @@ def impl():
 #
 # case = {"n": whole microseconds or None, "P": float.hex of the constructor
 #         argument, "t0": FPGA microseconds at construction, "with": bool,
-#         "ops": [["B", us] | ["W"] | ["F"] | ["X"]]}   X = leaving the with-block
+#         "ops": [["B", us] | ["W"] | ["F"] | ["X"] | ["X", how]]}
+# X = __exit__: the first X of a "with" case is the end of the with-statement around the
+# operations before it, left the way `how` says (see HOWS; default "end"); any other X is a
+# direct call of __exit__ with the matching (exc_type, exc_val, exc_tb).
 
 def case_P(case):
     return float.fromhex(case["P"])
@@ -192,23 +240,60 @@ def drive(sim, cls, case):
     def run(d, part):
         for o in part:
             if abort.is_set():
-                raise SystemExit
+                raise Abort
             if o[0] == "B":
                 sim.advance(o[1])
+                res["snaps"].append(snap())
             elif o[0] == "W":
                 d.wait()
-            else:                       # F, or X outside a with-statement
+                res["snaps"].append(snap())
+            elif o[0] == "F":
                 d.free()
-            res["snaps"].append(snap())
+                res["snaps"].append(snap())
+            else:
+                # X that is not the end of the with-statement of this case: __exit__ called the way
+                # the with-statement (or contextlib.ExitStack) calls it; the exception comes out iff
+                # there is one and __exit__ returned a false value
+                exc = make_exc(how_of(o))
+                if exc is None:
+                    ret = d.__exit__(None, None, None)
+                else:
+                    ret = d.__exit__(type(exc), exc, exc.__traceback__)
+                res["snaps"].append(snap() + [1 if (exc is not None and not ret) else 0])
+
+    def with_statement(i):
+        """`with cls(P) as d:` around ops[:i], left the way ops[i] says; returns d"""
+        how = how_of(ops[i])
+        exc = make_exc(how)
+        holder = []
+
+        def function_with_the_block():
+            for _ in (0,):              # a loop around the with-statement, so that break can leave it
+                with cls(P) as d:
+                    holder.append(d)
+                    res["ctor"] = "ok"
+                    res["snap0"] = snap()
+                    run(d, ops[:i])
+                    if how == "break":
+                        break
+                    if how == "return":
+                        return
+                    if exc is not None:
+                        raise exc
+        came_out = False
+        try:
+            function_with_the_block()
+        except BaseException as e:
+            if e is not exc:
+                raise
+            came_out = True
+        res["snaps"].append(snap() + [1 if came_out else 0])
+        return holder[0]
 
     def body():
         if use_with:
             i = [o[0] for o in ops].index("X")
-            with cls(P) as d:
-                res["ctor"] = "ok"
-                res["snap0"] = snap()
-                run(d, ops[:i])
-            res["snaps"].append(snap())
+            d = with_statement(i)
             run(d, ops[i + 1:])
         else:
             d = cls(P)
@@ -226,7 +311,7 @@ def drive(sim, cls, case):
                 res["error"] = "ValueError: %s" % e
         except WouldHang as e:
             res["error"] = "hang: %s" % e
-        except SystemExit:
+        except Abort:
             pass
         except BaseException as e:
             res["error"] = "%s: %s" % (type(e).__name__, e)
@@ -276,6 +361,7 @@ def oracle(case, res):
     prev = res["snap0"]
     k = 0
     freed = False
+    rel = None
     ops = case["ops"]
     for i, o in enumerate(ops):
         if i >= len(res["snaps"]):
@@ -303,14 +389,20 @@ def oracle(case, res):
                                 % (i, k, cur[1], k + 1, g + n)))
             else:
                 if ret != call:
-                    out.append(("wait-after-free-blocked", "op %d: wait() after free() called at %d returned at %d" % (i, call, ret)))
+                    out.append(("wait-after-free-blocked", "op %d: wait() called at %d, after %s, did not return immediately: it blocked until %d"
+                                % (i, call, rel, ret)))
         elif o[0] in ("F", "X"):
+            # free(), and leaving the with-block in ANY way (end of block, break, return, exception)
+            if not freed:
+                rel = "%s (op %d)" % (op_text(o), i)
             freed = True
         if freed:
             if cur[1] is not None:
-                out.append(("notifier-armed-after-free", "op %d: after free()/with-exit the HAL still holds an alarm at %d" % (i, cur[1])))
+                out.append(("notifier-armed-after-free", "op %d: after %s the notifier is not released: the HAL still holds its alarm at %d"
+                            % (i, rel, cur[1])))
             if cur[2] != 1:
-                out.append(("handle-not-released-once", "op %d: after free()/with-exit cleanNotifier was called %d times on the handle (must be exactly once)" % (i, cur[2])))
+                out.append(("handle-not-released-once", "op %d: after %s cleanNotifier was called %d times on the handle (must be exactly once)"
+                            % (i, rel, cur[2])))
         prev = cur
     if res["error"]:
         out.append(("exception" if not res["error"].startswith("hang") else "hang",
@@ -358,6 +450,20 @@ def edge_cases():
     cs.append(mk_case(10000, 10, [F, W, ["B", 50000], W, F]))
     # wait without any body in between
     cs.append(mk_case(2000, 0, [W, W, W, ["B", 10000], W, W, W, W, W, W, W, F]))
+    # the with-block left in every way Python has, while the next alarm is still in the future; then a
+    # wait 100 us later (it would block until that alarm if the notifier had stayed armed), and free()
+    for h in HOWS:
+        cs.append(mk_case(20000, 500000, loop([5000, 20000]) + [["B", 5000], ["X", h], ["B", 100], W, W, F], use_with=True))
+    # ... left by an exception before the first wait / in the first microsecond / after an overrun (late) /
+    # exactly on a grid point
+    cs.append(mk_case(20000, 0, [["X", "raise:RuntimeError"], W], use_with=True))
+    cs.append(mk_case(1000, 0, [["B", 1], ["X", "raise:KeyboardInterrupt"], W, ["B", 5000], W], use_with=True))
+    cs.append(mk_case(5000, 77, loop([100, 17000]) + [["X", "raise:SystemExit"], W, ["B", 100000], W, F, W], use_with=True))
+    cs.append(mk_case(5000, 77, loop([100, 4900]) + [["B", 5000], ["X", "raise:ValueError"], W, X, W], use_with=True))
+    # __exit__ called directly with exception information; again after the with-block; after free()
+    cs.append(mk_case(10000, 10, loop([2000]) + [["X", "raise:GeneratorExit"], ["B", 1000], W, ["X", "end"], W]))
+    cs.append(mk_case(10000, 10, loop([2000, 30000]) + [["X", "break"], W, ["X", "raise:StopIteration"], ["B", 50000], W], use_with=True))
+    cs.append(mk_case(10000, 10, [F, ["X", "raise:RuntimeError"], W, ["B", 50000], W, ["X", "return"]]))
     return cs
 
 
@@ -430,17 +536,29 @@ def gen_case(r, below):
             now = max(now, g)
     if use_with:
         j = len(ops) if r.random() < 0.6 else r.randrange(0, len(ops) + 1)
-        ops.insert(j, ["X"])
-        if r.random() < 0.4:
+        ops.insert(j, ["X", gen_how(r)])
+        if r.random() < 0.5:
             ops += [["B", r.randrange(0, 2 * n)], ["W"]]
+        if r.random() < 0.15:           # the same object in a second with-statement / __exit__ again
+            ops.append(["X", gen_how(r)])
         if r.random() < 0.2:
             ops.append(["F"])
     else:
-        if not any(o[0] == "F" for o in ops):
+        if r.random() < 0.3:            # __exit__ called directly (ExitStack, a wrapper), anywhere
+            ops.insert(r.randrange(0, len(ops) + 1), ["X", gen_how(r)])
+        if not any(o[0] in ("F", "X") for o in ops):
             ops.append(["F"])
         if r.random() < 0.3:
             ops += [["W"], ["F"]] if r.random() < 0.5 else [["B", r.randrange(0, 2 * n)], ["W"]]
     return mk_case(n, t0, ops, use_with)
+
+
+def gen_how(r):
+    """how a with-block is left: half of the time by an exception raised in the loop body"""
+    u = r.random()
+    if u < 0.5:
+        return "raise:%s" % r.choice(sorted(EXC))
+    return "end" if u < 0.7 else ("break" if u < 0.85 else "return")
 
 
 def load_corpus():
@@ -463,14 +581,19 @@ def coq_Q(x):
 
 
 def flat_snap(s):
-    t, a, c = s
+    t, a, c = s[:3]
     return [t, 0, 0, c] if a is None else [t, 1, a, c]
 
 
 def coq_op(o):
     if o[0] == "B":
         return "Body %s" % zlit(o[1])
-    return "Wait" if o[0] == "W" else "Free"
+    if o[0] == "W":
+        return "Wait"
+    if o[0] == "F":
+        return "Free"
+    h = how_of(o)               # Delay.Model: leave_with h = Exit (exc_info h)
+    return "Exit (Some %s)" % EXC[h[6:]][0] if h.startswith("raise:") else "Exit None"
 
 
 def zlit(n):
@@ -489,6 +612,9 @@ def coq_case(name, case, res):
         for o, s in zip(case["ops"], res["snaps"]):
             if o[0] != "B":
                 flat += flat_snap(s)
+        for o, s in zip(case["ops"], res["snaps"]):
+            if o[0] == "X":             # per __exit__: did an exception come out of the with-statement
+                flat.append(s[3])
         if len(res["snaps"]) != len(case["ops"]):
             flat.append(-1)             # the run stopped early: never equal to the model's list
         obs = "Some %s" % coq_list([zlit(x) for x in flat])
@@ -682,8 +808,16 @@ def _run(ctx, sim):
         ctx.count("waits:called-late", f[1])
         ctx.count("waits:catch-up(first on-time after overrun)", f[2])
         ctx.count("waits:after-free", f[3])
+        first_x = True
         for o in c["ops"]:
             ctx.count("op=%s" % {"B": "body", "W": "wait", "F": "free", "X": "with-exit"}[o[0]])
+            if o[0] == "X":
+                h = how_of(o)
+                ctx.count("%s left by %s" % ("with-statement" if (c["with"] and first_x) else "__exit__ called directly,",
+                                            h if not h.startswith("raise:") else "exception"))
+                if h.startswith("raise:"):
+                    ctx.count("exception class=%s" % h[6:])
+                first_x = False
 
     # ---- comparison inside Coq ----------------------------------------
     per = max(10, min(400, -(-len(cases) // 16)))
@@ -722,8 +856,10 @@ def _run(ctx, sim):
         "distinct_nontrivial": len(nontrivial),
         "rule": "corpus + hand-made edge schedules + rejected/non-whole periods + seeded random schedules of 5-40 waits "
                 "(periods 1 ms..1 s, 30% whole-us periods whose double lies below the integer; bodies zero / shorter than / "
-                "equal to / 1-5x the period / aimed at the grid point +-1 us; free() at random points, repeated, with-block "
-                "exit, t0 up to 2^32 us); non-trivial = the run has at least one wait that blocked until its grid point, at "
+                "equal to / 1-5x the period / aimed at the grid point +-1 us; free() at random points, repeated; 40% of the "
+                "objects used in a with-statement that is left at a random point by running to its end / break / return / "
+                "(half of them) an exception of 6 classes raised in the block, 30% of the others get a direct __exit__ "
+                "call with or without exception information; t0 up to 2^32 us); non-trivial = the run has at least one wait that blocked until its grid point, at "
                 "least one late call and at least one catch-up (first on-time wait after an overrun); distinct = different "
                 "(period, t0, operations)",
         "exhaustive": False,
